@@ -117,13 +117,16 @@ def contracts(hints, angle_kind):
         return x if angle_kind == 'Rad' else 'deg_to_rad(%s)' % x
 
     def sc6(src, halfangle=False):
+        return ', '.join(sc6l(src, halfangle))
+
+    def sc6l(src, halfangle=False):
         out = []
         for ax in 'xyz':
             r = to_rad('%s.%s' % (src, ax))
             if halfangle:
                 r = 'rad_scale(%s, s_lit(1real / 2real))' % r
             out += ['rad_sin(%s)' % r, 'rad_cos(%s)' % r]
-        return ', '.join(out)
+        return out
 
     def fn(unit, im, f):
         if im is None:
@@ -135,8 +138,9 @@ def contracts(hints, angle_kind):
         if tn == 'From' and name == 'from':
             if ta == 'Quaternion<S>' and st in ('Matrix3', 'Matrix4'):
                 n = int(st[-1])
+                # hints name parameters ($k) and spec functions only, never locals of the body (a renamed local must not break a proof)
                 return Contract(ensures=['ret == m%d_from_q($0)' % n], spec='m%d_from_q(v)' % n,
-                                tail=hint_call(hints[('from_q', n)], {'q': 'quat'}), tags=('identity',))
+                                pre=hint_call(hints[('from_q', n)], {'q': '$0'}), tags=('identity',))
             if ta == 'Quaternion<S>' and st == 'Basis3':
                 return Contract(ensures=['ret.mat == m3_from_q($0)'], spec='Basis3 { mat: m3_from_q(v) }')
             if ta == 'Basis3<S>' and st == 'Quaternion':
@@ -146,12 +150,12 @@ def contracts(hints, angle_kind):
             if ta == 'Euler<A>' and st in ('Matrix3', 'Matrix4'):
                 n = int(st[-1])
                 return Contract(ensures=['ret == m%d_euler(%s)' % (n, sc6('$0'))],
-                                tail=hint_call(hints[('euler', n)], {k: k for k in ('sx', 'cx', 'sy', 'cy', 'sz', 'cz')}), tags=('identity',))
+                                pre=hint_call(hints[('euler', n)], dict(zip(('sx', 'cx', 'sy', 'cy', 'sz', 'cz'), sc6l('$0')))), tags=('identity',))
             if ta == 'Euler<A>' and st == 'Basis3':
                 return Contract(ensures=['ret.mat == m3_euler(%s)' % sc6('$0')])
             if ta == 'Euler<A>' and st == 'Quaternion':
                 return Contract(ensures=['ret == q_euler(%s)' % sc6('$0', True)],
-                                tail=hint_call(hints['q_euler'], {k: k for k in ('s_x', 'c_x', 's_y', 'c_y', 's_z', 'c_z')}), tags=('identity',))
+                                pre=hint_call(hints['q_euler'], dict(zip(('s_x', 'c_x', 's_y', 'c_y', 's_z', 'c_z'), sc6l('$0', True)))), tags=('identity',))
             if ta == 'Quaternion<S>' and st == 'Euler':
                 test = 's_add(s_mul($0.v.x, $0.v.z), s_mul($0.v.y, $0.s))'
                 unit_ = 'q_magnitude2($0)@'
